@@ -23,12 +23,38 @@ KINDS = {"j2pp": ("join", ("point", "point")), "m2ll": ("meet", ("line", "line")
          "m3ll": ("meet", ("line3", "line3"))}
 
 
+def reused_transformation(g, M):
+    """A Transformation object that has been used with ANOTHER matrix before (applied to a point, a hyperplane and a
+    quadric, inverted, raised to a negative power) and is then given the matrix M in place through the public item
+    assignment: whatever the object memorises about its former matrix must not survive."""
+    n = len(M)
+    M0 = np.eye(n) + np.diag(np.arange(1.0, n), 1)[:n, :n] * 0 + np.triu(np.ones((n, n)), 1)      # unipotent, invertible
+    t = g.Transformation(M0.copy())
+    hyper = g.Line(np.arange(1, n + 1)) if n == 3 else g.Plane(np.arange(1, n + 1))
+    (t * g.Point(np.ones(n)), t * hyper, t * g.Quadric(np.diag([1.0] * (n - 1) + [-1.0])), t.inverse(), t ** -1)
+    A = np.array(M, dtype=float)
+    for i in range(n):
+        for j in range(n):
+            t[i, j] = A[i, j]
+    return t
+
+
 def replay(recs):
+    out = _replay(recs, False)
+    # every eighth record again with a transformation object that was used before and then edited in place
+    sub = [d for k, d in enumerate(recs) if k % 8 == 0 and d["r"]["t"] in ("jm", "inc", "qp", "qh", "poly")]
+    for m in _replay(sub, True):
+        m["site"] += "/transformation-edited-in-place"
+        out.append(m)
+    return out
+
+
+def _replay(recs, reused):
     g = import_geometer()
     out = []
     for d in recs:
         r, stratum = d["r"], d["s"]
-        t = g.Transformation(np.array(r["M"]))
+        t = reused_transformation(g, r["M"]) if reused else g.Transformation(np.array(r["M"]))
         try:
             if r["t"] == "jm":
                 op, kinds = KINDS[r["f"]]
